@@ -120,8 +120,8 @@ func SV_C08_crash_restart() {
 // with the validator identity of party A and with every rotation of every
 // map iteration order.
 //
-// sv:bounds genesis with 4 validators in the last commit, two of them below the minimum self delegation (both purged at the first block end), unstakes of A maturing at blocks 3 and 4, symbolic funded balances, a proposal in voting whose deadline has passed (expired by the internal transaction of block 3), a bid conversation past its deadline (expired by the bid application's block hooks) beside an open one; block 3 carries one SEND A->B with arbitrary amount/currency/fee, block 4 is empty; replica 2 = validator A's node key, and every rotation of the iteration order of every Go map ranged over during its two blocks (maps of 2..4 entries)
-// sv:outside the wall clock (not reached by these blocks; the uuid of the internal transactions is a fresh value per call), the cross-chain witness role and job store (no tracker in these blocks), other transaction kinds and block-level hooks with non-empty inputs (allegations, proposal finalisation, trackers), IAVL internals, float behaviour on other CPU architectures
+// sv:bounds genesis with 4 validators in the last commit, two of them below the minimum self delegation (both purged at the first block end), unstakes of A maturing at blocks 3 and 4, symbolic funded balances, a proposal in voting whose deadline has passed (expired by the internal transaction of block 3), a proposal in the passed store with an escrow of 1000003 (finalised by the internal transaction of block 3: distribution to the 4 validators, proposer and pools), a bid conversation past its deadline (expired by the bid application's block hooks) beside an open one; block 3 carries one SEND A->B with arbitrary amount/currency/fee, block 4 is empty; replica 2 = validator A's node key, and every rotation of the iteration order of every Go map ranged over during its two blocks (maps of 2..4 entries)
+// sv:outside the wall clock (not reached by these blocks; the uuid of the internal transactions is a fresh value per call), the cross-chain witness role and job store (no tracker in these blocks), other transaction kinds and block-level hooks with non-empty inputs (allegations, trackers), IAVL internals, float behaviour on other CPU architectures
 // sv:goal same DeliverTx results, validator updates and ordered write sets in both blocks
 func SV_C01_node_identity_and_map_order() {
 	sv.NominalSizes(64)
@@ -155,6 +155,28 @@ func SV_C01_node_identity_and_map_order() {
 		if err := pm.ProposalFund.AddFunds(svPropID, svParty_(1).Addr, balance.NewAmountFromInt(10)); err != nil {
 			sv.Unreachable("funds")
 		}
+		// a proposal voted yes by both voters, waiting in the passed store: block 3 queues
+		// its finalisation (built with the node's own validator address) and the block end
+		// distributes its escrow to the validators, the proposer and the pools
+		passed := governance.NewProposal(svPropID3, governance.ProposalTypeGeneral, "descr", "headline", svParty_(1).Addr,
+			1, balance.NewAmountFromInt(10), 1000, 51, "")
+		passed.Status, passed.Outcome = governance.ProposalStatusCompleted, governance.ProposalOutcomeCompletedYes
+		if err := pm.Proposal.WithPrefixType(governance.ProposalStatePassed).Set(passed); err != nil {
+			sv.Unreachable("passed proposal")
+		}
+		for i := 0; i < 2; i++ {
+			pv := governance.NewProposalVote(svParty_(i).Addr, governance.OPIN_UNKNOWN, 3000000)
+			if err := pm.ProposalVote.Setup(svPropID3, pv); err != nil {
+				sv.Unreachable("vote setup")
+			}
+			pv.Opinion = governance.OPIN_POSITIVE
+			if err := pm.ProposalVote.Update(svPropID3, pv); err != nil {
+				sv.Unreachable("vote record")
+			}
+		}
+		if err := pm.ProposalFund.AddFunds(svPropID3, svParty_(1).Addr, balance.NewAmountFromInt(1000003)); err != nil {
+			sv.Unreachable("funds")
+		}
 		// a bid conversation past its deadline: the external application's block
 		// hooks queue its expiry (built with the node's own validator address) and run it
 		svBidGenesis(app, 7, 9)
@@ -173,5 +195,7 @@ func SV_C01_node_identity_and_map_order() {
 	sv.MapOrders(false)
 	sv.Assert(tb3.equal(ta3), "block-results-independent-of-node-identity-and-map-order")
 	sv.Assert(tb4.equal(ta4), "next-block-results-independent-of-node-identity-and-map-order")
+	_, stP := svPropStageOf(a, svPropID3)
+	sv.Cover(stP == governance.ProposalStateFinalized, "passed-proposal-finalised-in-the-compared-blocks")
 	sv.Cover(true, "compared")
 }
